@@ -24,6 +24,33 @@ def gen_special(rng, tier):
             chunks[pos] = [['ok', kk, 500 + nid + i] for i, kk in enumerate(ks)]; nid += 10
         total = sum(len(c) for c in chunks)
         yield Case(sx.dump(['kmerge', 0, ['chunks'] + chunks, total + 3, 'exact']), True, 'wide-fan-in')
+    # medium fan-in (17..130 chunk streams) drained in two or three WAVES: a group of short chunks runs dry first, then a
+    # group of medium ones, while a few long ones go on; chunk positions of the groups interleaved (bookkeeping that
+    # releases or renumbers exhausted chunks is exercised twice)
+    for k_ in range(12 if tier == 'quick' else 200):
+        k = rng.choice([17, 33, 48, 64, 65, 100, 130])
+        rev = rng.choice([0, 0, 1])
+        chunks = []
+        nid = 0
+        for ci in range(k):
+            grp = (ci * 7 + k_) % 3
+            m = rng.randint(1, 3) if grp == 0 else (rng.randint(8, 14) if grp == 1 else rng.randint(25, 40))
+            lo = 0 if grp == 0 else (0 if rng.random() < 0.5 else 20)
+            ks = sorted((rng.randint(lo, lo + (5 if grp == 0 else 60)) for _i in range(m)), reverse=bool(rev))
+            chunks.append([['ok', kk, 10000 + nid + i] for i, kk in enumerate(ks)]); nid += m
+        if k_ % 4 == 3:
+            c = rng.choice(chunks); c.insert(rng.randint(0, len(c)), ['err', 3])
+        total = sum(len(c) for c in chunks)
+        yield Case(sx.dump(['kmerge', rev, ['chunks'] + chunks, total + 3, 'exact']), True, 'waves')
+    # chunk streams far longer than any read-ahead block (16385 .. 40000 items), clean and with an error item exactly at and
+    # around positions 16384 / 32768
+    for k_ in range(3 if tier == 'quick' else 16):
+        L = rng.choice([16385, 16390, 32769, 40000])
+        long_ = [['ok', i // 3, 200000 + i] for i in range(L)]
+        if k_ % 3 == 1:
+            long_.insert(rng.choice([16383, 16384, 16385, 32768]), ['err', 5])
+        chunks = [[['ok', 7, 1], ['ok', 9000, 2]], long_, []]
+        yield Case(sx.dump(['kmerge', 0, ['chunks'] + chunks, len(long_) + 5, 'exact']), True, 'long-chunk')
     # one chunk supplies a long streak of consecutive outputs, then holds an error: at every position of the streak
     for L in ([9, 12] if tier == 'quick' else [8, 9, 12, 20, 40]):
         for pos in range(L + 1):
